@@ -163,6 +163,8 @@ c_Fixed == {tla(FIXED_OBJ)}
             chk.violation(f"C13 object history {h['hist']}: {r['bad'][0]}", {"history": h["hist"], "bad": r["bad"]})
     chk.traces += len(ohist)
     chk.note("object_histories", len(ohist))
+    for b in parallel_map(_shared_inputs_case, [0], procs=1)[0]:
+        chk.violation(f"C13 shared inputs: {b}", {})
     # --- manager level ---------------------------------------------------------------------------
     hists = manager_histories(chk, t)
     if len(hists) < 10:
@@ -222,10 +224,37 @@ c_Fixed == {tla(FIXED_OBJ)}
 # ------------------------------------------------------------------------------------------------
 # object level
 # ------------------------------------------------------------------------------------------------
+def _shared_inputs_case(_):
+    """Two field objects built from the SAME load list: an hourly simulation over two years on the first must not change what an
+    hourly simulation over one year on the second returns (nor the caller's list)."""
+    import_repo()
+    from ghedesigner.enums import TimestepType  # noqa: PLC0415
+
+    bad = []
+    with warnings.catch_warnings(), contextlib.redirect_stdout(io.StringIO()):
+        warnings.simplefilter("ignore")
+        try:
+            loads = profile(9000.0)
+            original = list(loads)
+            a = _mk_ghe(loads, months=24)
+            a.simulate(TimestepType.HOURLY)
+            if len(a.hp_eft) != 2 * 8760:
+                bad.append(f"hourly simulation over 24 months returned {len(a.hp_eft)} temperatures")
+            if loads != original:
+                bad.append(f"an hourly simulation over two years changed the caller's load list (length {len(original)} -> {len(loads)})")
+            b = _mk_ghe(loads, months=12)
+            b.simulate(TimestepType.HOURLY)
+            ref = _mk_ghe(list(original), months=12)
+            ref.simulate(TimestepType.HOURLY)
+            if (len(b.hp_eft), fhash(b.hp_eft)) != (len(ref.hp_eft), fhash(ref.hp_eft)):
+                bad.append(f"hourly simulation of a field differs after an unrelated two-year hourly simulation on another object sharing the load list ({len(b.hp_eft)} vs {len(ref.hp_eft)} steps)")
+        except Exception as ex:  # noqa: BLE001
+            bad.append(f"raised {type(ex).__name__}: {ex}")
+    return bad
 _BASE = {}
 
 
-def _mk_ghe():
+def _mk_ghe(loads=None, months=12):
     import_repo()
     from ghedesigner.borehole import GHEBorehole  # noqa: PLC0415
     from ghedesigner.coordinates import rectangle  # noqa: PLC0415
@@ -241,10 +270,10 @@ def _mk_ghe():
     grout, soil = Grout(1.0, 3901000.0), Soil(2.0, 2343493.0, 18.3)
     bore = GHEBorehole(70.0, 2.0, 0.07, 0.0, 0.0)     # nominal height below the 49-hour clamp of the short-time-step model
     coords = rectangle(2, 2, 5.0, 5.0)
-    sp = SimulationParameters(1, 12, 35.0, 5.0, 135.0, 60.0)
+    sp = SimulationParameters(1, months, 35.0, 5.0, 135.0, 60.0)
     m_flow = 0.3 / 1000.0 * fluid.rho
     gfn = calc_g_func_for_multiple_lengths(5.0, [bore.H], bore.r_b, bore.D, m_flow, BHPipeType.SINGLEUTUBE, eskilson_log_times(), coords, fluid, pipe, grout, soil)
-    return GHE(0.3 * 4, 5.0, BHPipeType.SINGLEUTUBE, fluid, bore, pipe, grout, soil, gfn, sp, profile(9000.0))
+    return GHE(0.3 * 4, 5.0, BHPipeType.SINGLEUTUBE, fluid, bore, pipe, grout, soil, gfn, sp, profile(9000.0) if loads is None else loads)
 
 
 # two heights below the 49-hour clamp of the short-time-step model (H < ~86 m for this soil) and one above
@@ -280,6 +309,8 @@ def _exec_object_history(item):
                     g.compute_g_functions()
                 elif op == "set_h":
                     g.bhe.b.H = HEIGHTS[call[1]]
+            if list(g.hourly_extraction_ground_loads) != profile(9000.0):
+                bad.append("the caller's hourly load list was modified by the calls")
             out = (float(g.bhe.b.H).hex(), fhash(g.hp_eft), len(g.times))
             # reference: a fresh object brought to the same (gf, H) without any other simulation, then the last call alone
             last = item["hist"][-1][0]
